@@ -44,6 +44,7 @@ def factories():
 
 
 FACT = factories()
+SURROGATE = "bad-filename-\udcff-" + SECRET  # what os.fsdecode() yields for an undecodable file name
 for _k, _f in FACT.items():
     _f.__name__ = _k
 
@@ -75,6 +76,7 @@ def gen(W):
     sc["unencodable_header"] = W.chance(0.12)
     # the request queued behind may hand over a file as well (two files in the output queue at teardown)
     sc["second_file"] = W.chance(0.25)
+    sc["surrogate_message"] = W.chance(0.15)
     sc["client_stalls"] = W.chance(0.3)
     return sc
 
@@ -123,7 +125,12 @@ def one_run(sc, placement, sub_id):
         step = placement[1]
         step = tuple(step) if isinstance(step, list) else step
         exc_cls = placement[2]
-        script["raise_at"] = (step, FACT[exc_cls])
+        fac = FACT[exc_cls]
+        if sc.get("surrogate_message") and exc_cls == "Exception":
+            def fac():
+                return AppExc(SURROGATE)
+            fac.__name__ = "Exception"
+        script["raise_at"] = (step, fac)
         if script["kind"] == "list":
             script["kind"] = "gen"
     second = {"chunks": [b"second"], "cl": 6}
